@@ -213,6 +213,12 @@ def real_cell(cell):
     try:
         genfile = os.path.join(s.dir, "gen.txt")
         s.conf_lines = ["raw_env = ['VERIF_GEN=' + open(%r).read().strip()]" % genfile]
+        extrafile = os.path.join(s.dir, "extra.txt")
+        if scenario == "raw-env-removed":
+            # a variable the configuration sets, changes on the first reload and no longer mentions on the second one
+            open(extrafile, "w").write("one")
+            s.conf_lines.append("_x = open(%r).read().strip()" % extrafile)
+            s.conf_lines.append("raw_env = raw_env + (['VERIF_EXTRA=' + _x] if _x else [])")
         if bind == "localhost":
             s.conf_lines.append("bind = 'localhost:%d' % PORT_PLACEHOLDER")
         open(genfile, "w").write("g1")
@@ -235,6 +241,20 @@ def real_cell(cell):
         if len(old_workers) != 2:
             time.sleep(0.5)
             old_workers = set(s.workers())
+        if scenario == "raw-env-removed":
+            open(extrafile, "w").write("two")
+            s.signal(signal.SIGHUP)
+            end = time.time() + 10
+            while time.time() < end:
+                ws = set(s.workers())
+                if not (ws & old_workers) and len(ws) == 2:
+                    break
+                time.sleep(0.1)
+            if set(s.workers()) & old_workers:
+                return ("old-generation-survives", "old workers still alive 10 s after the first HUP")
+            time.sleep(0.3)
+            old_workers = set(s.workers())
+            open(extrafile, "w").write("")
         conn = Connector(s)
         conn.start()
         time.sleep(0.2)
@@ -329,12 +349,15 @@ def real_cell(cell):
                 v = v or ("old-worker-serves-after-reload", "pid %s" % pid)
             if gen != want_gen:
                 v = v or ("old-configuration-after-reload", "reply carries generation %r, expected %r" % (gen, want_gen))
+            if scenario == "raw-env-removed" and rp.header(head, "X-Extra") != "<unset>":
+                v = v or ("stale-environment-after-reload", "the configuration no longer sets VERIF_EXTRA (it was 'one', then 'two' after the first "
+                          "reload, absent at the second), yet the new workers run with VERIF_EXTRA=%r" % rp.header(head, "X-Extra"))
         return v
     finally:
         s.cleanup()
 
 
-SCENARIOS = ("idle", "app-running", "response-partial", "head-partial", "two-hups", "workers-2-3", "workers-removed")
+SCENARIOS = ("idle", "app-running", "response-partial", "head-partial", "two-hups", "workers-2-3", "workers-removed", "raw-env-removed")
 
 
 def real_cells(thorough):
